@@ -1628,3 +1628,155 @@ Proof.
     as [s2 o2] eqn:E.
   apply idle_run_quiet in E; [exact (proj2 E)|]. split; [reflexivity|]. cbn. apply J2. reflexivity.
 Qed.
+
+(* ---------- 8. broadcasts are never answered (session half of C07) -------------------------------- *)
+
+Lemma classify_bcast s m bytes ctl fn obj : classify s (Some m) bytes ctl fn obj = FtBroadcast m.
+Proof. reflexivity. Qed.
+
+Lemma hfi_bcast cfg s from m bytes d fid s' o :
+  handle_from_idle cfg s from (Some m) bytes d fid = (s', o) -> Forall no_tx o.
+Proof.
+  rewrite handle_from_idle_eq. destruct (to_treq cfg from d) as [|sq|ctl fn obj].
+  - intros H; inversion H; subst. constructor.
+  - intros H. apply write_error_response_spec in H. destruct H as [_ H]. subst o. constructor.
+  - cbv zeta. rewrite classify_bcast.
+    destruct (process_broadcast cfg s m fid ctl fn bytes obj) as [s1 o1] eqn:E.
+    apply process_broadcast_spec in E. destruct E as [_ E].
+    intros H; inversion H; subst. constructor; [exact I|exact E].
+Qed.
+
+(* in the unsolicited confirm wait a broadcast confirms nothing and is not answered *)
+Lemma uwf_bcast cfg s resp from m bytes d fid s' res o :
+  unsol_wait_fragment cfg s resp from (Some m) bytes d fid = (s', res, o) ->
+  res = None /\ Forall no_tx o /\ (s_deferred s = None -> s_deferred s' = None).
+Proof.
+  unfold unsol_wait_fragment. destruct (to_treq cfg from d) as [|sq|ctl fn obj].
+  - intros H; inversion H; subst. split; [reflexivity|]. split; [constructor|auto].
+  - destruct (write_error_response (upd_deferred s None) from (Some m) sq) as [s1 o1] eqn:E.
+    apply write_error_response_spec in E. destruct E as [E1 E2]. subst o1.
+    intros H; inversion H; subst. split; [reflexivity|]. split; [constructor|].
+    intros _. destruct E1 as (_ & _ & _ & _ & _ & E1 & _). exact E1.
+  - rewrite classify_bcast.
+    destruct (process_broadcast cfg (upd_deferred s None) m fid ctl fn bytes obj) as [s1 o1] eqn:E.
+    apply process_broadcast_spec in E. destruct E as [E1 E2].
+    intros H; inversion H; subst. split; [reflexivity|]. split; [exact E2|].
+    intros _. destruct E1 as (_ & _ & _ & _ & _ & E1 & _). exact E1.
+Qed.
+
+(* in the solicited confirm wait a broadcast never confirms: it is ignored (foreign master) or aborts
+   the series as a new request *)
+Lemma swf_bcast cfg s se dl from m bytes d :
+  sol_wait_fragment cfg s se dl from (Some m) bytes d = (SoStay dl, []) \/
+  sol_wait_fragment cfg s se dl from (Some m) bytes d = (SoNewRequest, [OInfo ISolNewRequest]).
+Proof.
+  unfold sol_wait_fragment. destruct (to_treq cfg from d) as [|sq|ctl fn obj]; auto.
+Qed.
+
+Definition calm (s : ostate) : Prop :=
+  s_deferred s = None /\
+  match s_pending s with Some (_, bc, _, _, _) => bc <> None | None => True end.
+
+Lemma idle_run_calm cfg fuel : forall st s s' o,
+  calm s -> idle_run fuel cfg st s = (s', o) -> calm s' /\ Forall not_sol o.
+Proof.
+  induction fuel as [|f IH]; intros st s s' o [Q1 Q2] H; cbn [idle_run] in H.
+  { inversion H; subst. split; [split; assumption|repeat constructor]. }
+  destruct st as [| |ns|ns].
+  - destruct (match s_pending s with
+              | Some (from, bc, bytes, d, fid) => handle_from_idle cfg (upd_pending s None) from bc bytes d fid
+              | None => (s, [])
+              end) as [s1 o1] eqn:E1.
+    assert (H1 : calm s1 /\ Forall not_sol o1).
+    { destruct (s_pending s) as [[[[[from bc] bytes] d] fid]|] eqn:Epen.
+      - destruct bc as [m|]; [|contradiction].
+        pose proof (hfi_bcast _ _ _ _ _ _ _ _ _ E1) as Hn.
+        apply handle_from_idle_frame in E1. destruct E1 as [A _].
+        destruct A as (_ & _ & _ & A4 & _ & A6 & _). cbn in A4, A6.
+        split; [split; [congruence|rewrite A6; exact I]|apply no_tx_not_sol; exact Hn].
+      - inversion E1; subst. split; [split; [exact Q1|rewrite Epen; exact I]|constructor]. }
+    destruct H1 as [C1 Ho1].
+    destruct (s_control s1).
+    + destruct (idle_run f cfg St2 s1) as [s2 o2] eqn:E2. apply IH in E2; [|exact C1].
+      inversion H; subst. split; [tauto|apply Forall_app; tauto].
+    + inversion H; subst. split; assumption.
+    + inversion H; subst. split; assumption.
+  - destruct (check_unsolicited cfg s) as [[s2 ns] o2] eqn:E2.
+    pose proof (check_unsolicited_notsol _ _ _ _ _ E2) as Ho2.
+    apply check_unsolicited_frame in E2. destruct E2 as (_ & A & _).
+    destruct A as (_ & _ & _ & A4 & A5 & _).
+    assert (C2 : calm s2) by (split; [congruence|rewrite A5; exact Q2]).
+    destruct (s_control s2) as [|se dl r|resp is_null retries dl].
+    + destruct (idle_run f cfg (St3 false) s2) as [s3 o3] eqn:E3. apply IH in E3; [|exact C2].
+      inversion H; subst. split; [tauto|apply Forall_app; tauto].
+    + inversion H; subst. split; assumption.
+    + destruct C2 as [D1 D2].
+      destruct (s_pending s2) as [[[[[from bc] bytes] d] fid]|] eqn:Epen.
+      2:{ inversion H; subst. split; [split; [exact D1|rewrite Epen; exact I]|exact Ho2]. }
+      destruct bc as [m|]; [|contradiction].
+      destruct (unsol_wait_fragment cfg (upd_pending s2 None) resp from (Some m) bytes d fid) as [[s3 res] o3] eqn:E3.
+      pose proof (uwf_bcast _ _ _ _ _ _ _ _ _ _ _ E3) as (U1 & U2 & U3).
+      apply unsol_wait_fragment_frame in E3. destruct E3 as [C _].
+      destruct C as (_ & _ & _ & _ & _ & C6 & _). cbn in C6.
+      subst res. inversion H; subst. split.
+      * split; [apply U3; exact D1|rewrite C6; exact I].
+      * apply Forall_app. split; [exact Ho2|apply no_tx_not_sol; exact U2].
+  - rewrite handle_deferred_none in H by exact Q1. destruct (s_control s).
+    + destruct (idle_run f cfg (St4 ns) s) as [s4 o4] eqn:E4. apply IH in E4; [|split; assumption].
+      inversion H; subst. exact E4.
+    + inversion H; subst. split; [split; assumption|constructor].
+    + inversion H; subst. split; [split; assumption|constructor].
+  - destruct (s_pending s) eqn:Epen.
+    + apply IH in H; [exact H|]. split; [exact Q1|rewrite Epen; exact Q2].
+    + destruct ns; [apply IH in H; [exact H|split; [exact Q1|rewrite Epen; exact I]]|].
+      destruct (s_notify s); [apply IH in H; [exact H|split; [exact Q1|cbn; rewrite Epen; exact I]]|].
+      inversion H; subst. split; [split; [exact Q1|rewrite Epen; exact I]|constructor].
+Qed.
+
+Lemma resume_at_calm cfg st s s' o : calm s -> resume_at cfg st s = (s', o) -> calm s' /\ Forall not_sol o.
+Proof. unfold resume_at. apply idle_run_calm. Qed.
+
+Lemma idle_loop_calm cfg n s s' o : calm s -> idle_loop n cfg s = (s', o) -> calm s' /\ Forall not_sol o.
+Proof. unfold idle_loop. apply idle_run_calm. Qed.
+
+(* For a fragment that arrived by broadcast, whatever it holds (CONFIRM, malformed objects, an
+   unknown function code, invalid header flags) and whatever the session is doing, on_rx transmits no
+   solicited response.  (The idle loop may go on to send an UNSOLICITED response, function code 130 -
+   e.g. after a broadcast ENABLE_UNSOLICITED; the settle time of the step may see a timeout end an
+   unsolicited wait, after which a READ deferred BEFORE the broadcast is answered - unless the
+   broadcast was processed, which drops the deferred READ.) *)
+Theorem no_solicited_tx_for_broadcast : forall AP cfg s answers from m bytes d,
+  Reach AP cfg s ->
+  Forall not_sol (snd (on_rx cfg (upd_answers s answers) from (Some m) bytes d)).
+Proof.
+  intros AP cfg s answers from m bytes d HR.
+  pose proof (Reach_J cfg AP s HR) as [J1 J2].
+  unfold on_rx.
+  set (fid := (s_frame_id (upd_answers s answers) + 1) mod 4294967296).
+  set (s0 := upd_frame_id (upd_answers s answers) fid).
+  change (s_control s0) with (s_control s).
+  destruct (s_control s) as [|se dl r|resp is_null retries dl] eqn:Ec.
+  - destruct (idle_loop 8 cfg (upd_pending s0 (Some (from, Some m, bytes, d, fid)))) as [s1 o1] eqn:E.
+    apply idle_loop_calm in E; [exact (proj2 E)|]. split; [cbn; apply J2; reflexivity|cbn; discriminate].
+  - assert (Hd : s_deferred s = None) by (apply J2; reflexivity).
+    destruct (swf_bcast cfg s0 se dl from m bytes d) as [Hs|Hs]; rewrite Hs.
+    + cbn [snd]. constructor.
+    + match goal with |- context [resume_at cfg ?a ?b] => destruct (resume_at cfg a b) as [s2 o2] eqn:E2 end.
+      apply resume_at_calm in E2; [|split; [exact Hd|cbn; discriminate]].
+      cbn [snd]. constructor; [exact I|]. constructor; [exact I|tauto].
+  - destruct (unsol_wait_fragment cfg s0 resp from (Some m) bytes d fid) as [[s1 res] o1] eqn:E1.
+    apply uwf_bcast in E1. destruct E1 as (-> & U2 & _). cbn [snd]. apply no_tx_not_sol. exact U2.
+Qed.
+
+(* a broadcast CONFIRM completes neither kind of confirm wait *)
+Theorem broadcast_confirms_nothing : forall cfg s from m bytes d,
+  (forall se dl, exists oc o, sol_wait_fragment cfg s se dl from (Some m) bytes d = (oc, o) /\
+                              forall x, oc <> SoConfirmed x) /\
+  (forall resp fid, snd (fst (unsol_wait_fragment cfg s resp from (Some m) bytes d fid)) = None).
+Proof.
+  intros cfg s from m bytes d. split.
+  - intros se dl. destruct (swf_bcast cfg s se dl from m bytes d) as [H|H]; rewrite H; eexists; eexists;
+      (split; [reflexivity|discriminate]).
+  - intros resp fid. destruct (unsol_wait_fragment cfg s resp from (Some m) bytes d fid) as [[s1 res] o1] eqn:E.
+    apply uwf_bcast in E. cbn. tauto.
+Qed.
